@@ -347,7 +347,8 @@ def rule_r10_body(body, counts):
 
 
 def rule_r4_body(body, counts):
-    """R4: `for (i, x) in E.iter().enumerate() {` -> explicit counter."""
+    """R4: `for (i, x) in E.enumerate() { B }` -> counter `i__n` advanced at the START of each iteration
+    (`let i = i__n; i__n += 1;`), which is the definition of Enumerate and stays correct under `continue`."""
     pat = re.compile(r'(?P<ind>^[ \t]*)for \((?P<i>\w+), (?P<x>\w+)\) in (?P<e>[^\n{]*?)\.enumerate\(\) \{', re.M)
     while True:
         m = pat.search(body)
@@ -356,12 +357,10 @@ def rule_r4_body(body, counts):
         open_idx = m.end() - 1
         close_idx = _match_brace(body, open_idx)
         inner = body[open_idx + 1:close_idx]
-        if re.search(r'\bcontinue\b', re.sub(r'//.*', '', inner)):
-            raise ExtractError('R4: loop body contains continue')
         ind = m.group('ind')
         i = m.group('i')
-        new = (ind + 'let mut %s: usize = 0; // [R4]\n' % i + ind + 'for %s in %s {' % (m.group('x'), m.group('e'))
-               + inner + ind + '    %s += 1; // [R4]\n' % i + ind + '}')
+        new = (ind + 'let mut %s__n: usize = 0; // [R4]\n' % i + ind + 'for %s in %s {\n' % (m.group('x'), m.group('e'))
+               + ind + '    let %s = %s__n; %s__n += 1; // [R4]' % (i, i, i) + inner + '}')
         body = body[:m.start()] + new + body[close_idx + 1:]
         counts['R4'] = counts.get('R4', 0) + 1
     return body
@@ -371,6 +370,10 @@ def rule_r5b_body(body, counts):
     """R5b: closure conversions (definition of Iterator::any / Option::map_or):
        `E.iter().any(|v| match_wildcard(v, S))`      -> `verif_any_match(E, S)`   (helper proved in contracts/)
        `RECV.map_or(false, |v| BODY)`                -> `(match RECV { Some(v) => BODY, None => false })`"""
+    # `O.map(|(a, _)| a).unwrap_or(D)` -> `(match O { Some((a, _)) => a, None => D })`
+    body, n0 = re.subn(r'\b(\w+)\.map\(\|\((\w+), _\)\| \2\)\.unwrap_or\(("[^"]*")\)', r'(match \1 { Some((\2, _)) => \2, None => \3 })', body)
+    if n0:
+        counts['R5b'] = counts.get('R5b', 0) + n0
     pat_any = re.compile(r'([A-Za-z_][\w]*)\s*\.iter\(\)\s*\.any\(\|(\w+)\|\s*match_wildcard\(\2,\s*([^()]+)\)\)')
     body, n = pat_any.subn(lambda m: 'verif_any_match(%s, %s)' % (m.group(1), m.group(3).strip()), body)
     if n:
@@ -449,7 +452,16 @@ def rule_r18_body(body, counts):
     return new
 
 
+def rule_r20_body(body, counts):
+    """R20: `E.contains('c')` on a str -> `verif_str_has_char(E, 'c')`."""
+    new, n = re.subn(r"\b([A-Za-z_]\w*)\.contains\(('(?:\\.|[^'])')\)", r'verif_str_has_char(\1, \2)', body)
+    if n:
+        counts['R20'] = counts.get('R20', 0) + n
+    return new
+
+
 RULES_BODY = {
+    'R20': rule_r20_body,
     'R18': rule_r18_body,
     'R5t': rule_r5t_body,
     'R14': rule_r14_body,
